@@ -234,6 +234,7 @@ type result struct {
 	Stall   bool
 	Smuggle string // non-empty: payload octets were executed
 	Bad     string // malformed server output
+	Lost    string // a command pipelined behind a continuation answer was not answered (or not with OK)
 }
 
 // wait reads until a tagged response for tag, a continuation request (if
@@ -299,6 +300,7 @@ func (p *peer) runUnit(u unit) *result {
 	res := &result{Obs: obsT{Tagged: "NONE", Call: "none"}}
 	p.stub.Begin(0)
 	tag := p.raw.NextTag()
+	ptag := "" // tag of a NOOP pipelined behind the line that answers a continuation request
 	var payload []byte
 	switch u.Cmd {
 	case "NOOP":
@@ -313,13 +315,17 @@ func (p *peer) runUnit(u unit) *result {
 		p.send([]byte(tag + " " + line + "\r\n"))
 		gotT, gotC, eof, to := p.wait(tag, true, 500*time.Millisecond, 3*time.Second, res)
 		if gotC {
+			// the line that answers the continuation request is followed, in the same write, by the next command: a
+			// server that reads ahead while it waits for that line must not lose what lies behind it
+			ptag = p.raw.NextTag()
+			next := ptag + " NOOP\r\n"
 			switch u.Cmd {
 			case "IDLE":
-				p.send([]byte("DONE\r\n"))
+				p.send([]byte("DONE\r\n" + next))
 			case "AUTH-FINAL":
-				p.send([]byte("\r\n")) // the client's (empty) answer to the final server data
+				p.send([]byte("\r\n" + next)) // the client's (empty) answer to the final server data
 			default:
-				p.send([]byte("*\r\n"))
+				p.send([]byte("*\r\n" + next))
 			}
 		} else {
 			res.Closed, res.Stall = eof, to
@@ -357,10 +363,19 @@ func (p *peer) runUnit(u unit) *result {
 		// a conforming server may legitimately stay silent (it waits for octets we never send)
 		first, total = 300*time.Millisecond, 300*time.Millisecond
 	}
-	_, _, eof, to := p.wait(tag, false, first, total, res)
+	gotMain, _, eof, to := p.wait(tag, false, first, total, res)
 	res.Closed = eof
 	if to && !(u.Size == "huge" && u.Form == "nonsync") {
 		res.Stall = true
+	}
+	if ptag != "" && gotMain {
+		r2 := &result{Obs: obsT{Tagged: "NONE", Call: "none"}}
+		if g2, _, eof2, _ := p.wait(ptag, false, 500*time.Millisecond, 3*time.Second, r2); !g2 {
+			res.Lost = "the command pipelined behind the line that answered the continuation request was never answered"
+			res.Closed = res.Closed || eof2
+		} else if r2.Obs.Tagged != "OK" {
+			res.Lost = "the NOOP pipelined behind the line that answered the continuation request was answered " + r2.Obs.Tagged
+		}
 	}
 	p.finish(u, payload, res)
 	return res
@@ -489,6 +504,9 @@ func runCase(cs *caseT, enc *json.Encoder, emu *sync.Mutex, out *vh.Out, rng *ra
 		}
 		if res.Bad != "" {
 			out.Mismatch(sigOf("malformed-output", u), res.Bad, cut)
+		}
+		if res.Lost != "" {
+			out.Mismatch(sigOf("pipelined-lost", u), res.Lost, cut)
 		}
 		if res.Stall {
 			out.Mismatch(sigOf("stall", u), "no tagged completion and no continuation request within 3 s while the connection stays open", cut)
